@@ -248,3 +248,4 @@ def run(chk):
     C01b.run(chk, mod, lib)
     from . import C01c
     C01c.run(chk)
+    C01c.clausen_reduction(chk)
